@@ -181,7 +181,7 @@ PROPS["C14"] = {
 import c16
 PROPS["C16"] = {
     "id": "C16", "cmd": "-", "level": "exploration", "run_fn": c16.run,
-    "rule": "witness programs = {sync_digraph, sync_ungraph} x {Node, Edge, Graph, Path (search result), edge iterator, container iterator} x sharing mode {clone moved into thread::spawn, &T in thread::scope, Arc<T>} x payload position {K, N, E} x hostile payload {Cell-based (Send, !Sync), Rc-based (!Send, !Sync), Cell-based whose Clone writes (Send, !Sync; the library clones stored keys and edge values itself)}, plus the same with benign (Arc<AtomicU64>) payloads in all positions, plus plain digraph/ungraph witnesses with u64 payloads, plus search builders (bfs/dfs/pfs/orderings) whose closure reaches a Send-but-not-Sync node value, moved into another thread; both threads touch key, value and edge values. Each witness is submitted to the compiler with hooks off: rejected with E0277 naming Send/Sync = not constructible; accepted = run under Miri with many seeds, a data race / UB in an accepted hostile or plain witness is a violation, benign witnesses must build and run race-free. distinct = distinct witness programs.",
+    "rule": "witness programs = {sync_digraph, sync_ungraph} x {Node, Edge, Graph, Path (search result), edge iterator, container iterator} x sharing mode {clone moved into thread::spawn, &T in thread::scope, Arc<T>} x payload position {K, N, E} x hostile payload {Cell-based (Send, !Sync), Rc-based (!Send, !Sync), Cell-based whose Clone writes (Send, !Sync; the library clones stored keys and edge values itself)}, plus the same with benign (Arc<AtomicU64>) payloads in all positions, plus plain digraph/ungraph witnesses with u64 payloads, plus search builders (bfs/dfs/pfs/orderings) whose closure reaches a Send-but-not-Sync node value, moved into another thread; both threads touch key, value and edge values; a 'churn' witness has one thread connect/disconnect while the other iterates the same nodes. Each witness is submitted to the compiler with hooks off: rejected with E0277 naming Send/Sync = not constructible; accepted = run under Miri with many seeds, a data race / UB in an accepted hostile or plain witness is a violation, benign witnesses must build and run race-free. distinct = distinct witness programs.",
     "exhaustive": {"quick": True, "thorough": True},
     "require": {"any": ["hostile_rejected_for_send_sync", "plain_rejected_for_send_sync", "positive_accepted", "positive_run_race_free", "miri_runs"]},
     "assumptions": ["the universally quantified statement over all K, N, E is a fact about the trait solver and is not decided by executions; only these concrete witnesses are", "a hostile witness that compiles but in which Miri observes no race is reported in the evidence notes, not as a violation"],
